@@ -138,7 +138,7 @@ def check_docx_paragraph():
     run = (lambda p: f(to_et(p), True)) if f else (lambda p: docx_api(p))
     r = Result()
     for name, p in TR.gen_docx_paragraphs():
-        sp = {DOCX_SPECIAL[x] for x in name.split("+") if x in DOCX_SPECIAL}
+        sp = {DOCX_SPECIAL[x.split("@")[0]] for x in name.split("+") if x.split("@")[0] in DOCX_SPECIAL}
         if len(sp) > 1:
             continue
         case = next(iter(sp)) if sp else "plain"
@@ -401,6 +401,34 @@ def check_odp_tables():
     return r
 
 
+def check_plain_decode():
+    """read_plain_text on encoded bytes: the text comes back character for character (nw image), whatever the size of the
+    file and wherever its first non-ASCII character is (encoding detection must not be blind to a part of the file)."""
+    from replay.c02_trees import nw
+    r = Result()
+    words = ["Grüße", "naïve", "Žlutý", "кириллица", "東京"]
+    filler = ("plain ascii line number %06d of a long export file\n" * 1)
+    for size_kib in (1, 300, 1100):
+        nlines = max(2, size_kib * 1024 // 48)
+        lines = [filler % i for i in range(nlines)]
+        for where in ("early", "late"):
+            for enc in ("utf-8", "utf-8-sig", "utf-16"):
+                body = list(lines)
+                marked = "".join(f"name {w} end\n" for w in words)
+                body.insert(1 if where == "early" else len(body) - 1, marked)
+                text = "".join(body)
+                out = _full_text("plain_extractor", "read_plain_text", io.BytesIO(text.encode(enc)), "txt")
+                ok = nw(out) == nw(text)
+                w = None
+                if not ok:
+                    bad = next((i for i, (a, b) in enumerate(zip(nw(out), nw(text))) if a != b), min(len(nw(out)), len(nw(text))))
+                    w = {"target": "plain_extractor.read_plain_text(...).get_full_text()", "kinds": ["lost", "invented"] if "\ufffd" in out else ["lost"],
+                         "inputs": f"{size_kib} KiB of {enc} text, non-ASCII words {words} placed {where}", "expected": nw(text)[max(0, bad - 20):bad + 40],
+                         "observed": nw(out)[max(0, bad - 20):bad + 40]}
+                r.add("small-file" if size_kib == 1 else f"large-file-non-ascii-{where}", ok, w)
+    return r
+
+
 def check_odp_slide():
     import itertools
     OP = _mod("open_office.odp_extractor")
@@ -596,7 +624,7 @@ CHECKS = {
     "docx.paragraph": check_docx_paragraph, "docx.table": check_docx_table, "docx.body": check_docx_body,
     "odt.body": check_odt_body, "html.extract": check_html_body, "odf.element_text": check_odf_text,
     "ods.sheet": check_ods_sheet, "xlsx.format": check_xlsx_format, "xls.format": check_xls_format,
-    "dt.slides": check_dt_slides, "odp.slide": check_odp_slide, "html.source": check_html_source, "rtf.source": check_rtf_source, "pptx.shapes": check_pptx_shape_tree, "epub.tables": check_epub_tables, "odp.tables": check_odp_tables, "epub.source": check_epub_source, "odg.text": check_odg_text, "pptx.paragraphs": check_pptx_paragraphs,
+    "dt.slides": check_dt_slides, "odp.slide": check_odp_slide, "html.source": check_html_source, "rtf.source": check_rtf_source, "pptx.shapes": check_pptx_shape_tree, "plain.decode": check_plain_decode, "epub.tables": check_epub_tables, "odp.tables": check_odp_tables, "epub.source": check_epub_source, "odg.text": check_odg_text, "pptx.paragraphs": check_pptx_paragraphs,
 }
 
 
@@ -628,7 +656,7 @@ FUNC_OF_CHECK = {
     "odf.element_text": "_shared.py::element_text",
     "odg.text": "odg_extractor.py::_extract_full_text", "pptx.paragraphs": "pptx_extractor.py::_extract_text_from_paragraphs",
     "odp.slide": "odp_extractor.py::_extract_slide", "html.source": "html_extractor.py::read_html",
-    "rtf.source": "rtf_extractor.py::read_rtf", "pptx.shapes": "pptx_extractor.py::read_pptx", "epub.tables": "epub_extractor.py::read_epub.iterate_tables", "odp.tables": "odp_extractor.py::read_odp.iterate_tables", "epub.source": "epub_extractor.py::read_epub",
+    "rtf.source": "rtf_extractor.py::read_rtf", "pptx.shapes": "pptx_extractor.py::read_pptx", "plain.decode": "plain_extractor.py::read_plain_text", "epub.tables": "epub_extractor.py::read_epub.iterate_tables", "odp.tables": "odp_extractor.py::read_odp.iterate_tables", "epub.source": "epub_extractor.py::read_epub",
 }
 
 # obligation id fragment -> (check, cases, kinds)
@@ -639,7 +667,7 @@ WITNESS_MAP = [
     ("[tracked-move-source]", "docx.paragraph", ["tracked-move"], None),
     ("[nested-paragraph]", "docx.paragraph", ["textbox-paragraphs"], None),
     ("_process_text_element/", "docx.paragraph", ["plain"], None),
-    ("_extract_paragraph_content/", "docx.paragraph", ["plain"], None),
+    ("_extract_paragraph_content/", "docx.paragraph", ["plain", "tracked-move"], None),
     ("_extract_full_text_from_body/inv-preserve#blocks.nw[content-control]", "docx.body", ["content-control"], None),
     ("_extract_full_text_from_body/inv-preserve#blocks.sq[content-control]", "docx.body", ["content-control"], None),
     ("_extract_full_text_from_body/", "docx.body", ["plain", "content-control"], None),
@@ -649,6 +677,7 @@ WITNESS_MAP = [
     ("_XhtmlTextExtractor.handle_endtag/ensures#closed-cell", "epub.tables", None, None),
     ("_XhtmlTextExtractor.", "epub.source", None, None),
     ("_extract_sheet/block#", "ods.sheet", None, None),
+    ("plain_extractor.py::", "plain.decode", None, None),
     ("_strip_rtf_full_with_pages/step", "rtf.source", None, None),
     ("_extract_slide/block#slide-text", "odp.slide", None, None),
     ("_extract_slide/block#speaker-notes", "odp.slide", None, ["leaked"]),
@@ -681,6 +710,12 @@ def find(req):
         if c and c["witness"] is not None:
             return dict(c["witness"], reproduced=True, search=f"{check}[{m.group(2)}]: {c['failures']} of {c['checked']} inputs fail")
         return {"reproduced": False, "note": f"{check}[{m.group(2)}]: no failing input"}
+    if "read_xls/block#" in oid:
+        from replay import c02_docs
+        for feat, rec in c02_docs.run_documents(["xls"]).get("xls", {}).items():
+            if rec.get("ok") is False:
+                return dict(rec, reproduced=True, search="xls workbook features (replay/c02_docs.py), feature " + feat)
+        return {"reproduced": False, "note": "no failing xls workbook feature"}
     if "_process_slide_from_context/block#" in oid:
         from replay import c02_docs
         for feat, rec in c02_docs.run_documents(["pptx"]).get("pptx", {}).items():
